@@ -100,7 +100,10 @@ pub fn qr_json(qr: &QRCode) -> Value {
     let tail_clean = qr.data[n * n..].iter().all(|m| m.0 == 0);
     // the public row accessor (Index<usize>) read cell by cell, against the backing array the projection above is taken from
     let rows_agree = std::panic::catch_unwind(|| (0..n).all(|r| { let row = &qr[r]; row.len() == n && (0..n).all(|c| row[c].0 == modules[r * n + c]) })).unwrap_or(false);
+    // digest of the matrix (FNV-1a over the module bytes): lets events that do not carry the matrix still be compared for equality
+    let digest = { let mut h: u64 = 0xcbf29ce484222325; for b in &modules { h ^= *b as u64; h = h.wrapping_mul(0x100000001b3); } [(h & 0x7fff_ffff) as u32, ((h >> 32) & 0x7fff_ffff) as u32] };
     json!({
+        "digest": digest,
         "rows_agree": rows_agree,
         "kind": "Ok",
         "size": n,
